@@ -196,3 +196,56 @@ def block_for(t, rnd, addr, n, mode):
                 if addr <= x < addr + n:
                     ws[x - addr] = rw[k]
     return ws
+
+
+def _rebase_segment(seg, rnd, p):
+    if rnd.random() >= p:
+        return 0, seg
+    f = list(map(int, seg[0].split()[1:]))
+    na = f[1]
+    top = 1
+    for i in range(na):
+        top = max(top, f[2 + 7 * i] + f[3 + 7 * i])
+    q = 2 + 7 * na
+    nr = f[q]
+    for j in range(nr):
+        top = max(top, f[q + 2 + 15 * j] + 4)
+    mid = top // 2
+    sh = rnd.choice([0xFFFFFFFF - top, 0xFFFFFFFF - top, 0x80000000 - mid, 0x7FFFFFFF - top, 0x10000 - mid, 0xFFFF0000 - mid, rnd.getrandbits(31)])
+    out = [seg[0]]
+    for l in seg[1:]:
+        w = l.split()
+        if w[0] in ('bwrite', 'bread', 'foreach'):
+            if int(w[1]) + int(w[2]) + sh > 0xFFFFFFFF:
+                continue
+        elif w[0] == 'hexstr':
+            if int(w[1]) + (int(w[2]) + 3) // 4 + sh > 0xFFFFFFFF:
+                continue
+        out.append(l)
+    return sh, out
+
+
+def rebased(sc, rnd, p=0.5):
+    """Shift the tables of a script to high base addresses (harness event abase): RegTable.tla is translation invariant,
+    the library should be too.  Requests whose exclusive end would pass 0xFFFFFFFF are dropped (wrapping is not specified)."""
+    out, seg, cur = [], [], 0
+    segs = []
+    for l in sc:
+        if l.startswith('tinit'):
+            if seg:
+                segs.append(seg)
+            seg = [l]
+        else:
+            seg.append(l)
+    if seg:
+        segs.append(seg)
+    for seg in segs:
+        if not seg[0].startswith('tinit'):
+            out += seg
+            continue
+        sh, body = _rebase_segment(seg, rnd, p)
+        if sh != cur:
+            out.append('abase %d %d' % (sh >> 16, sh & 0xFFFF))
+            cur = sh
+        out += body
+    return out
